@@ -79,7 +79,7 @@ def world_json(w):
 
 
 def run_histories(ctx, n, hist_len=(5, 30), storage_types=("multifilesystem",), layouts=({},), gen=None,
-                  monitor=None, tag="h", pid=None, compare_store=True, disagreement_is_violation=False):
+                  monitor=None, tag="h", pid=None, compare_store=True, disagreement_is_violation=False, directed=True):
     """Returns the list of (case, outputs) evaluated.  Records obligations `correspondence:<tag>-responses`
     and `correspondence:<tag>-store`; calls monitor(world, hist, outs, runner) per history."""
     et = etags()
@@ -88,6 +88,13 @@ def run_histories(ctx, n, hist_len=(5, 30), storage_types=("multifilesystem",), 
     for world, hist in corpus_cases(pid or ctx.pid):
         cases.append((world, hist))
     n_corpus = len(cases)
+    n_directed = 0
+    if directed:
+        # the handlers' decision tables, deterministically (first back-end / layout only)
+        dc = xh.directed_cases()
+        cases += dc
+        n_directed = len(dc)
+    ctx.count("histories:directed", n_directed)
     for _ in range(n):
         if gen is not None:
             world, hist = gen(rng, et)
@@ -98,10 +105,11 @@ def run_histories(ctx, n, hist_len=(5, 30), storage_types=("multifilesystem",), 
     ctx.count("histories:corpus", n_corpus)
     results = []
     store_cases = []
-    for world, hist in cases:
+    for ci, (world, hist) in enumerate(cases):
         ref = None
-        for st in storage_types:
-            for layout in layouts:
+        is_directed = n_corpus <= ci < n_corpus + n_directed
+        for st in (storage_types[:1] if is_directed else storage_types):
+            for layout in (layouts[:1] if is_directed else layouts):
                 runner = xh.Runner(et, storage_type=st, layout=layout)
                 outs = runner.run(world, hist, want_store=True)
                 if ref is None:
